@@ -14,11 +14,14 @@ pub struct Limits {
     pub max_states: usize,
     pub max_secs: f64,
     pub max_depth: usize,
+    /// abstraction-adequacy post-pass (DESIGN §2.3): different histories reaching the same
+    /// abstract state must have the same one-step fan-out
+    pub adequacy: bool,
 }
 
 impl Default for Limits {
     fn default() -> Self {
-        Limits { max_states: 2_000_000, max_secs: 1500.0, max_depth: usize::MAX }
+        Limits { max_states: 2_000_000, max_secs: 1500.0, max_depth: usize::MAX, adequacy: false }
     }
 }
 
@@ -49,6 +52,8 @@ pub struct Explore {
     pub clone_steps: u64,
     pub mutators: usize,
     pub observers: usize,
+    pub adequacy_pairs: u64,
+    pub adequacy_steps: u64,
 }
 
 struct Node {
@@ -79,7 +84,7 @@ fn fnv(bytes: &[u8]) -> u64 {
 
 struct StateOut {
     findings: Vec<(Finding, Option<Op>)>,
-    succs: Vec<(Vec<u8>, Op)>,
+    succs: Vec<(Vec<u8>, Op, Ret)>,
     counters: Counters,
     transitions: u64,
     executions: u64,
@@ -113,6 +118,8 @@ pub fn explore(driver: &dyn Driver, props: &BTreeSet<&'static str>, want: &Wants
     canon_of.push(c0);
 
     let mut viol: BTreeMap<(String, String, String), Violation> = BTreeMap::new();
+    let mut fanout: Vec<Vec<(Op, Ret, Vec<u8>)>> = vec![];
+    let mut dups: Vec<(u32, Op, u32)> = vec![];
     let mut frontier: Vec<u32> = vec![0];
     let mut depth = 0usize;
     let mut capped: Option<String> = None;
@@ -172,7 +179,7 @@ pub fn explore(driver: &dyn Driver, props: &BTreeSet<&'static str>, want: &Wants
                                 key.extend_from_slice(format!("{:?}{:?}", op, ret).as_bytes());
                                 key.extend_from_slice(&pc);
                                 o.digest = o.digest.wrapping_add(fnv(&key));
-                                o.succs.push((pc, *op));
+                                o.succs.push((pc, *op, ret.clone()));
                             }
                         }
                     }
@@ -206,12 +213,28 @@ pub fn explore(driver: &dyn Driver, props: &BTreeSet<&'static str>, want: &Wants
                         }
                     }
                 }
-                for (pc, op) in o.succs {
-                    if !seen.contains_key(&pc) {
-                        let nid = nodes.len() as u32;
-                        seen.insert(pc.clone(), nid);
-                        canon_of.push(pc);
-                        nodes.push(Node { parent: *id, op, depth: depth as u32 + 1 });
+                if limits.adequacy {
+                    if fanout.len() <= *id as usize {
+                        fanout.resize(*id as usize + 1, vec![]);
+                    }
+                    fanout[*id as usize] = o.succs.iter().map(|(pc, op, ret)| (*op, ret.clone(), pc.clone())).collect();
+                }
+                for (pc, op, _ret) in o.succs {
+                    match seen.get(&pc) {
+                        None => {
+                            let nid = nodes.len() as u32;
+                            seen.insert(pc.clone(), nid);
+                            canon_of.push(pc);
+                            nodes.push(Node { parent: *id, op, depth: depth as u32 + 1 });
+                        }
+                        Some(tid) => {
+                            if limits.adequacy && *tid != *id {
+                                let n = &nodes[*tid as usize];
+                                if !(n.parent == *id && n.op == op) {
+                                    dups.push((*id, op, *tid));
+                                }
+                            }
+                        }
                     }
                 }
             }
@@ -226,6 +249,54 @@ pub fn explore(driver: &dyn Driver, props: &BTreeSet<&'static str>, want: &Wants
         }
         depth += 1;
         frontier = (0..nodes.len() as u32).filter(|i| nodes[*i as usize].depth as usize == depth).collect();
+    }
+
+    if limits.adequacy && capped.is_none() {
+        let results: Vec<(u64, Option<(Finding, Vec<Op>, Op)>)> = dups
+            .par_iter()
+            .map(|(sid, op, tid)| {
+                let mut h = history(&nodes, *sid);
+                h.push(*op);
+                let fo = match fanout.get(*tid as usize) {
+                    Some(f) => f,
+                    None => return (0, None),
+                };
+                let mut steps = 0;
+                for (op2, ret2, pc2) in fo {
+                    let t = driver.trans(&h, *op2, want);
+                    steps += 1;
+                    let same = t.ret.as_ref() == Some(ret2) && t.post.as_ref().map(|p| p.canon()).as_ref() == Some(pc2);
+                    if !same {
+                        let f = Finding::new(
+                            "C17",
+                            "equal_states_have_equal_futures",
+                            format!("{:?}/{}", cfg.kind, oracle::op_name(op2)),
+                            format!(
+                                "two histories reach the same abstract state but {:?} then behaves differently: via {:?} it returns {:?}, via {:?} it returns {:?}",
+                                op2,
+                                h,
+                                t.ret,
+                                history(&nodes, *tid),
+                                ret2
+                            ),
+                        );
+                        return (steps, Some((f, h.clone(), *op2)));
+                    }
+                }
+                (steps, None)
+            })
+            .collect();
+        ex.adequacy_pairs = dups.len() as u64;
+        for (steps, f) in results {
+            ex.adequacy_steps += steps;
+            ex.executions += steps;
+            if let Some((f, h, op)) = f {
+                if props.contains(f.prop) {
+                    let key = (f.prop.to_string(), f.check.clone(), f.disc.clone());
+                    viol.entry(key).and_modify(|v| v.count += 1).or_insert(Violation { finding: f, history: h, failing_op: Some(op), count: 1 });
+                }
+            }
+        }
     }
 
     ex.states = nodes.len();
